@@ -24,6 +24,7 @@
 #include <mutex>
 #include <memory>
 #include <list>
+#include <unistd.h>
 #define private public
 #define protected public
 #include "vsim.h"
@@ -59,7 +60,26 @@ int main()
       for (colvar *c : *(S.proxy->colvars->variables())) o << " " << vs_hex(c->value());
       o << "\n";
     };
-    if (cmd == "E") {
+    if (cmd == "D") {
+      // D <name>: cv colvar <name> delete
+      if (!configured) { o << "err noconfig\n"; continue; }
+      std::vector<std::string> words = {"cv", "colvar", a[0], "delete"};
+      std::vector<unsigned char *> argv;
+      for (auto &sw : words) argv.push_back((unsigned char *) sw.c_str());
+      cvm::clear_error();
+      int err = run_colvarscript_command(argv.size(), argv.data());
+      o << (err == COLVARS_OK ? "ok" : "err") << "\n";
+      cvm::clear_error();
+    } else if (cmd == "C") {
+      // C | <more configuration>: cv config in the middle of the session (may be rejected)
+      if (!configured) { o << "err noconfig\n"; continue; }
+      std::replace(conf.begin(), conf.end(), ';', '\n');
+      cvm::clear_error();
+      int err = S.proxy->colvars->read_config_string(conf);
+      err |= cvm::get_error();
+      o << (err == COLVARS_OK ? "ok" : "err") << " nvars " << S.proxy->colvars->variables()->size() << "\n";
+      cvm::clear_error();
+    } else if (cmd == "E" || cmd == "EF") {
       int n = ni();
       S.eng.resize(n);
       S.eng.has_cell = ni() != 0;
@@ -72,7 +92,15 @@ int main()
       S.fresh();
       configured = false;
       cvm::clear_error();
-      int err = S.proxy->colvars->read_config_string(conf);
+      int err;
+      if (cmd == "EF") {   // the same configuration through a file (cv configfile)
+        char fn[256]; snprintf(fn, sizeof(fn), "/tmp/wk/c02_conf_%d.in", (int) getpid());
+        { std::ofstream f(fn); f << conf; }
+        err = S.proxy->colvars->read_config_file(fn);
+        remove(fn);
+      } else {
+        err = S.proxy->colvars->read_config_string(conf);
+      }
       err |= cvm::get_error();
       if (err != COLVARS_OK || S.proxy->colvars->variables()->size() == 0) {
         o << "err config:" << vs_errclass(err) << "\n";
@@ -85,6 +113,17 @@ int main()
       if (!configured) { o << "err noconfig\n"; continue; }
       for (int i = 0; i < S.eng.natoms; i++) S.eng.pos[i] = v3();
       evaluate();
+    } else if (cmd == "S") {
+      // S <param> <value>: colvar::set_cvc_param on the (single-component) variable
+      if (!configured) { o << "err noconfig\n"; continue; }
+      colvar *cv = (*(S.proxy->colvars->variables()))[0];
+      cvm::clear_error();
+      int err;
+      if (a[0] == "componentExp") { int n = atoi(a[1].c_str()); err = cv->set_cvc_param(a[0], &n); }
+      else { cvm::real x = num(a[1]); err = cv->set_cvc_param(a[0], &x); }
+      err |= cvm::get_error();
+      o << (err == COLVARS_OK ? "ok" : "err") << "\n";
+      cvm::clear_error();
     } else if (cmd == "M" || cmd == "F") {
       // M | <conf of component 0> ~ <conf of component 1> ~ ...   = cv colvar c modifycvcs (colvar::update_cvc_config)
       // F <b0> <b1> ...                                            = cv colvar c cvcflags   (colvar::set_cvc_flags)
@@ -176,6 +215,17 @@ int main()
       }
       delete ag;
       cvm::clear_error();
+    } else if (cmd == "PDT") {
+      // PDT <a> <b> <c> <p1> <p2>: position_distance in the triclinic cell with vectors a, b, c
+      if (!S.proxy) S.fresh();
+      cvm::rvector a3 = v3(), b3 = v3(), c3 = v3();
+      S.proxy->boundaries_type = colvarproxy_system::boundaries_pbc_triclinic;
+      S.proxy->unit_cell_x = a3; S.proxy->unit_cell_y = b3; S.proxy->unit_cell_z = c3;
+      S.proxy->update_pbc_lattice();
+      cvm::rvector p1 = v3(), p2 = v3();
+      cvm::rvector d = S.proxy->position_distance(p1, p2);
+      o << "ok " << H(d.x) << " " << H(d.y) << " " << H(d.z) << "\n";
+      S.proxy->update_cell();
     } else if (cmd == "PD") {
       if (!S.proxy) S.fresh();
       S.eng.has_cell = ni() != 0;
